@@ -45,6 +45,16 @@ CHECKS.update({
         ref="4/C10"),
 })
 
+CHECKS.update({
+    "C14": dict(
+        technique="static analysis: exit-path graph search on the MIR CFG (opener -> return avoiding closers), who-may-open/close tables, co-occurrence of sibling stacks, call-graph reachability of permanent-root sites",
+        text="Decides the pairing clauses exactly for every function: a push onto the interpreter's environment-guard stack or call "
+             "stack is popped on every path to a return (each `?` included), cross-function pairs are the discovered ones, frame "
+             "entry/exit touch both stacks, and only module-lifetime objects are rooted permanently at run time. The generator "
+             "guard leak it found was repaired (fix: commit). It does not decide that live-object counts stay constant.",
+        ref="4/C14"),
+})
+
 NOT_APPLICABLE = {
     "C04": "value equivalence with the TypeScript emit; no structural mechanism exists (DESIGN.md 4/C04)",
     "C09": "behaviour of a fixed-point loader over all graphs x schedules; structural parts are decided under C02/C19",
